@@ -972,6 +972,7 @@ func (a *Adapter) fault(op string) bool {
 
 func (a *Adapter) Len() int { return len(a.items) }
 func (a *Adapter) Values() []any {
+	vrt.Point(vrt.OpPlain, nil, nil)
 	r := make([]any, 0, len(a.items))
 	for _, it := range a.items {
 		if it.raw != nil {
